@@ -29,7 +29,7 @@ EDITS = [
 
 
 def derive_ops():
-    ops = [('copy',), ('inverted',), ('transposed',)]
+    ops = [('copy',), ('deepcopy',), ('pickle',), ('inverted',), ('transposed',)]
     for ig in (False, True):
         ops += [('union', ig), ('intersection', ig)]
     ops += [('op_or',), ('op_and',), ('op_invert',), ('op_neg',)]
@@ -45,6 +45,12 @@ def do_derive(op, x, y):
     k = op[0]
     if k == 'copy':
         return x.copy()
+    if k == 'deepcopy':
+        import copy
+        return copy.deepcopy(x)
+    if k == 'pickle':
+        import pickle
+        return pickle.loads(pickle.dumps(x))
     if k == 'inverted':
         return x.inverted()
     if k == 'transposed':
@@ -68,7 +74,7 @@ def do_derive(op, x, y):
 
 def derive_line(op, s, u, t):
     k = op[0]
-    if k == 'copy':
+    if k in ('copy', 'deepcopy', 'pickle'):
         return 'dcopy %d %d' % (s, t)
     if k in ('inverted', 'op_invert'):
         return 'dinverted %d %d' % (s, t)
@@ -187,6 +193,11 @@ def run(run):
                 run.fail('table string / crc32 differ between context and definition', c.tostring(), d.tostring(), [line])
             if c.crc32() != '%x' % (zlib.crc32(c.tostring().encode('utf-8')) & 0xffffffff):
                 run.fail('crc32 is not the crc of the table text', c.crc32(), None, [line])
+            repr(c), str(c)
+            for enc in ('utf-16', 'utf-8', 'utf-32'):
+                want_crc = '%x' % (zlib.crc32(c.tostring().encode(enc)) & 0xffffffff)
+                if c.crc32(enc) != want_crc or d.crc32(encoding=enc) != want_crc:
+                    run.fail('crc32(%r) of context / definition' % enc, [c.crc32(enc), d.crc32(encoding=enc)], want_crc, [line])
             # contexts are equal exactly when their triples are equal
             rows2 = list(rows)
             rows2[rng.randrange(n)] ^= 1 << rng.randrange(m)
